@@ -67,25 +67,70 @@ func readConfigFile(config_file string) string {
 		log.Fatalf("Couldn't read config file %q: %s", config_file, err.Error())
 	}
 
-	return os.Expand(string(data), expandVars)
+	return expandConfig(string(data))
 
 }
 
-func expandVars(in string) (out string) {
+// expandConfig substitutes the supported variables, written as $NAME or ${NAME},
+// and leaves every other '$' sequence exactly as it is: the $1 and ${1} group
+// references of rewriter and aggregation templates, a regex ending in '$', ...
+// (os.Expand is not suitable: it drops the braces of the names it is asked to
+// keep, so that "${1}x" becomes "$1x", and it swallows "${}" and an unclosed "${")
+func expandConfig(s string) string {
+	var buf strings.Builder
+	for i := 0; i < len(s); i++ {
+		if s[i] == '$' {
+			if val, width, ok := expandVarAt(s[i+1:]); ok {
+				buf.WriteString(val)
+				i += width
+				continue
+			}
+		}
+		buf.WriteByte(s[i])
+	}
+	return buf.String()
+}
+
+// expandVarAt looks at the text that follows a '$'. If it starts with the name
+// of a supported variable, optionally in braces, it returns the value of the
+// variable and the number of bytes the reference takes up.
+func expandVarAt(s string) (val string, width int, ok bool) {
+	braced := len(s) > 0 && s[0] == '{'
+	if braced {
+		s = s[1:]
+	}
+	n := 0
+	for n < len(s) && (s[n] == '_' || '0' <= s[n] && s[n] <= '9' || 'a' <= s[n] && s[n] <= 'z' || 'A' <= s[n] && s[n] <= 'Z') {
+		n++
+	}
+	if braced && (n == len(s) || s[n] != '}') {
+		return "", 0, false
+	}
+	val, ok = expandVars(s[:n])
+	if !ok {
+		return "", 0, false
+	}
+	if braced {
+		n += 2
+	}
+	return val, n, true
+}
+
+func expandVars(in string) (out string, ok bool) {
 	switch in {
 	case "HOST":
 		hostname, _ := os.Hostname()
 		// in case hostname is an fqdn or has dots, only take first part
 		parts := strings.SplitN(hostname, ".", 2)
-		return parts[0]
+		return parts[0], true
 	case "GRAFANA_NET_ADDR":
-		return os.Getenv("GRAFANA_NET_ADDR")
+		return os.Getenv("GRAFANA_NET_ADDR"), true
 	case "GRAFANA_NET_API_KEY":
-		return os.Getenv("GRAFANA_NET_API_KEY")
+		return os.Getenv("GRAFANA_NET_API_KEY"), true
 	case "GRAFANA_NET_USER_ID":
-		return os.Getenv("GRAFANA_NET_USER_ID")
+		return os.Getenv("GRAFANA_NET_USER_ID"), true
 	default:
-		return "$" + in
+		return "", false
 	}
 }
 
